@@ -32,8 +32,66 @@ fn op_encoded(line: &str, args: &[SExp]) -> CaseResult {
     let (listing, badkey) = unbuild(req.header(), req.attributes(), true);
     let bytes = req.to_bytes();
     let eff = format!("encoded {} {}", show_msg(&listing), hex(&bytes));
-    let oracle = if badkey { Some("map key differs from stored attribute name".into()) } else { None };
+    let mut oracle = if badkey { Some("map key differs from stored attribute name".into()) } else { None };
+    if oracle.is_none() {
+        oracle = reencode_history(req, &bytes);
+    }
     CaseResult { line: eff, result: "match".into(), oracle, class: "encoded".into() }
+}
+
+/// History inside one object: the instance that has just been encoded is changed in place through the public
+/// accessors and encoded again, by every encoding entry point.  Expectations come from RFC 8010 alone (the first
+/// eight octets are version, operation/status, request-id; a message without attributes is the header, an empty
+/// operation group and the end tag - theorem `C01.opFirst_without_operation_group`), not from the library.
+fn reencode_history(mut req: IppRequestResponse, first: &[u8]) -> Option<String> {
+    use std::io::Read;
+    if first.len() < 8 {
+        return Some("encoding shorter than the 8-octet header".into());
+    }
+    // (1) unchanged object, second call and the stream entry point: same bytes
+    let again = req.to_bytes();
+    if again[..] != first[..] {
+        return Some(format!("second to_bytes() of the same object differs: {} vs {}", clip(&hex(&again)), clip(&hex(first))));
+    }
+    // (2) header changed through header_mut(): only the first eight octets change, to the new header
+    let (v0, o0, i0) = (req.header().version.0, req.header().operation_or_status, req.header().request_id);
+    let (v1, o1, i1) = (v0 ^ 0x0300, o0 ^ 0x0041, i0.wrapping_add(0x0102_0305));
+    req.header_mut().version = IppVersion(v1);
+    req.header_mut().operation_or_status = o1;
+    req.header_mut().request_id = i1;
+    let mut want = Vec::with_capacity(first.len());
+    want.extend_from_slice(&v1.to_be_bytes());
+    want.extend_from_slice(&o1.to_be_bytes());
+    want.extend_from_slice(&i1.to_be_bytes());
+    want.extend_from_slice(&first[8..]);
+    let got = req.to_bytes();
+    if got[..] != want[..] {
+        return Some(format!(
+            "after header_mut() (version {:04x}, op/status {:04x}, request-id {:08x}) to_bytes() starts {} instead of {}",
+            v1, o1, i1, hex(&got[..got.len().min(8)]), hex(&want[..8])
+        ));
+    }
+    // (3) … and back, then every group removed through attributes_mut(): header, empty operation group, end tag
+    req.header_mut().version = IppVersion(v0);
+    req.header_mut().operation_or_status = o0;
+    req.header_mut().request_id = i0;
+    let back = req.to_bytes();
+    if back[..] != first[..] {
+        return Some(format!("after restoring the header to_bytes() differs from the first encoding: {}", clip(&hex(&back))));
+    }
+    req.attributes_mut().groups_mut().clear();
+    let mut want = first[..8].to_vec();
+    want.extend_from_slice(&[0x01, 0x03]);
+    let got = req.to_bytes();
+    if got[..] != want[..] {
+        return Some(format!("after removing every group through attributes_mut() to_bytes() is {} instead of {}", clip(&hex(&got)), hex(&want)));
+    }
+    // (4) the stream entry point of the changed object delivers the same bytes
+    let mut streamed = vec![];
+    if req.into_read().read_to_end(&mut streamed).is_err() || streamed != want {
+        return Some(format!("into_read() of the changed object delivers {} instead of {}", clip(&hex(&streamed)), hex(&want)));
+    }
+    None
 }
 
 /// `wire WMSG payload`: a wire tree serialised by the harness, read by the real parser
